@@ -333,7 +333,9 @@ impl Interp {
                     } else {
                         api.call_function(pkgs[a0 as usize], NAMES[a1 as usize], "run", input)?
                     };
-                    let (owns, tags): (Vec<Own>, Vec<u8>) = scrypto_decode(&out).unwrap();
+                    // the callee hands back references to the components globalized so far, so that this
+                    // frame may name them in later calls (kernel visibility is not part of the model)
+                    let (owns, tags, _refs): (Vec<Own>, Vec<u8>, Vec<GlobalAddress>) = scrypto_decode(&out).unwrap();
                     for (o, t) in owns.into_iter().zip(tags) {
                         regs.push(Some((o.0, tag_of(t))));
                     }
@@ -417,7 +419,8 @@ impl VmInvoke for Interp {
                         tags.push(t as u8);
                     }
                 }
-                Ok(IndexedScryptoValue::from_typed(&(owns, tags)))
+                let refs: Vec<GlobalAddress> = CTX.with(|c| c.borrow().new_globals.clone());
+                Ok(IndexedScryptoValue::from_typed(&(owns, tags, refs)))
             }
         }
     }
